@@ -54,8 +54,8 @@ MUTANTS = [
      "    global _SP\n    prev = _SP\n    _SP = path\n    try:\n        yield\n    finally:\n        _SP = prev",
      [("_SOURCE_PATH.get()", "_SP"), ("\n\n\n@contextmanager\ndef source_path_context", "\n_SP = None\n\n\n@contextmanager\ndef source_path_context")]),
     ("cli_always_newline", "C16", "cli/main.py",
-     "    sys.stdout.write(text if text.endswith(\"\\n\") else text + \"\\n\")",
-     "    sys.stdout.write(text + \"\\n\")"),
+     "    payload = text if text.endswith(\"\\n\") else text + \"\\n\"",
+     "    payload = text + \"\\n\""),
     ("cli_exit0_on_error", "C16", "cli/main.py",
      "        case \"rm\":\n            source = parse(_read_input(args.file))\n            _emit(\n                remove_value(\n                    source=source,\n                    npath=args.npath,\n                )\n            )\n            return 0",
      "        case \"rm\":\n            source = parse(_read_input(args.file))\n            try:\n                _emit(remove_value(source=source, npath=args.npath))\n            except KeyError as exc:\n                print(exc, file=sys.stderr)\n            return 0"),
@@ -75,8 +75,8 @@ MUTANTS = [
      "            binding = super().__getitem__(index)\n            super().__delitem__(index)\n            attrpath_order = self._attrpath_order()",
      "            binding = super().__getitem__(index)\n            attrpath_order = self._attrpath_order()"),
     ("formal_scope_ignored", "C10", "expressions/identifier.py",
-     "        if identifier.name in scope.parameters:\n            raise ResolutionError(",
-     "        if False and identifier.name in scope.parameters:\n            raise ResolutionError("),
+     "        if identifier.name in scope.parameters:\n            raise _unbound(",
+     "        if False and identifier.name in scope.parameters:\n            raise _unbound("),
     ("with_not_weak", "C10", "resolution.py",
      "            weak_scope.weak = True",
      "            weak_scope.weak = False"),
